@@ -34,8 +34,14 @@ fn main() {
       }
     }
   }
-  if std::env::var("VERIF_TRACE").is_ok() {
-    let _ = tracing_subscriber::fmt().with_max_level(tracing::Level::DEBUG).with_writer(std::io::stderr).try_init();
+  if let Ok(level) = std::env::var("VERIF_TRACE") {
+    let level = match level.as_str() {
+      "warn" => tracing::Level::WARN,
+      "info" => tracing::Level::INFO,
+      "trace" => tracing::Level::TRACE,
+      _ => tracing::Level::DEBUG,
+    };
+    let _ = tracing_subscriber::fmt().with_max_level(level).with_writer(std::io::stderr).try_init();
   }
   let lines: Vec<String> = std::io::stdin()
     .lock()
